@@ -13,6 +13,7 @@ CONSTANTS
   Jitter = {0,1}
   MaxT = 1
   MaxBurst = 2
+  MaxReact = 2
   MaxEv = 0
   TickEnds = FALSE
   UseHint = FALSE
@@ -27,6 +28,7 @@ PROPERTY PublishEmitsFullVector
 PROPERTY HeardIsMerge
 PROPERTY SuppressionDecision
 PROPERTY EmitsOnlyLocal
+PROPERTY CallbackPublishEmits
 PROPERTY OutdatedStartsSuppression
 PROPERTY Witnesses
 VIEW View
